@@ -7,10 +7,10 @@ rows=["| # | property | id | status | fix commit | call site | what failed |","|
 for i,f in enumerate(kf,1):
     rows.append("| %d | %s | `%s` | %s | %s | %s | %s |"%(i,f['property'],f['id'],f['status'],f.get('commit','—'),f['call_site'].replace('|','/'),f['what_fails'].replace('|','/')))
 findings="\n".join(rows)
-rows=["| seeded change | breaks | needs in order to manifest | caught by (quick tier) |","|---|---|---|---|"]
+rows=["| seeded change | breaks | needs in order to manifest | caught by (quick tier) | when first tried |","|---|---|---|---|---|"]
 for d in sorted(glob.glob(os.path.join(HERE,'seeded','*','meta.json'))):
     m=json.load(open(d))
-    rows.append("| `%s` | %s | %s | %s |"%(m['seed_id'],m['property'],m['needs_to_manifest'].replace('|','/'),", ".join(m['caught_by']) if m.get('caught_by') else "**missed** — "+m.get('note','')))
+    rows.append("| `%s` | %s | %s | %s | %s |"%(m['seed_id'],m['property'],m['needs_to_manifest'].replace('|','/'),", ".join(m['caught_by']) if m.get('caught_by') else "**missed** — "+m.get('note',''), m.get('first_result','caught')))
 seeded="\n".join(rows)
 p=os.path.join(HERE,'DESIGN.md')
 s=open(p).read()
